@@ -1,46 +1,20 @@
 """Whitelist of code anchors that are translated into coq/Gen/*.v on every run.
 
-Each group becomes one Coq file per carrier: Gen/<group>_<carrier>.v.
+Anchor groups live in tools/anchors.d/*.py; each file defines GROUPS = {group: dict(domains=[...],
+anchors=[spec, ...])} and optionally EXTRA_GENERATORS = ["module_name", ...] (modules in tools/
+exposing generate(repo) -> [(filename, coq_text, info_dict)]).  Each group becomes one Coq file
+per carrier: coq/Gen/<group>_<carrier>.v.
 """
-EVSE = "acnportal/acnsim/models/evse.py"
-BATT = "acnportal/acnsim/models/battery.py"
-EVPY = "acnportal/acnsim/models/ev.py"
+import glob, os, importlib.util
 
-NOISE = {"np.random.normal": ("noise", "num")}
-
-GROUPS = {
-    # ------------------------------------------------------------------ EVSE acceptance predicates
-    "Evse": dict(domains=["Q", "R"], anchors=[
-        dict(name="EVSE_valid_rate", file=EVSE, qual="EVSE._valid_rate", inline_defaults=["atol"],
-             inline_props={"min_rate": "EVSE.min_rate", "max_rate": "EVSE.max_rate"}),
-        dict(name="DeadbandEVSE_valid_rate", file=EVSE, qual="DeadbandEVSE._valid_rate",
-             inline_defaults=["atol"], inline_props={"max_rate": "DeadbandEVSE.max_rate"}),
-        dict(name="FiniteRatesEVSE_valid_rate", file=EVSE, qual="FiniteRatesEVSE._valid_rate",
-             inline_defaults=["atol"], types={"self.allowable_rates": "numlist"}),
-        # set_pilot: validity is an input (wired to the class's _valid_rate by the model); the call
-        # to the connected EV is an effect
-        dict(name="BaseEVSE_set_pilot", file=EVSE, qual="BaseEVSE.set_pilot",
-             types={"self._ev": "optZ"}, call_params={"self._valid_rate": ("valid", "bool")},
-             effects=["self._ev.charge"]),
-    ]),
-    "EvseZ": dict(domains=["Z"], anchors=[
-        dict(name="BaseEVSE_plugin", file=EVSE, qual="BaseEVSE.plugin", types={"self._ev": "optZ"},
-             inline_props={"ev": "BaseEVSE.ev"}),
-        dict(name="BaseEVSE_unplug", file=EVSE, qual="BaseEVSE.unplug", types={"self._ev": "optZ"}),
-    ]),
-    # ------------------------------------------------------------------ battery / EV kernels
-    "Battery": dict(domains=["Q", "R"], anchors=[
-        dict(name="Battery_charge", file=BATT, qual="Battery.charge"),
-        dict(name="L2_charge", file=BATT, qual="Linear2StageBattery._charge",
-             inline_props={"_soc": "Battery._soc"}, call_params=NOISE),
-        dict(name="L2_charge_stepwise", file=BATT, qual="Linear2StageBattery._charge_stepwise",
-             inline_props={"_soc": "Battery._soc"}, call_params=NOISE),
-        dict(name="EV_charge", file=EVPY, qual="EV.charge",
-             call_params={"self._battery.charge": ("charge_rate_in", "num")}),
-        dict(name="EV_remaining_demand", file=EVPY, qual="EV.remaining_demand",
-             inline_props={"requested_energy": "EV.requested_energy", "energy_delivered": "EV.energy_delivered"}),
-        dict(name="EV_fully_charged", file=EVPY, qual="EV.fully_charged",
-             inline_props={"remaining_demand": "EV.remaining_demand", "requested_energy": "EV.requested_energy",
-                           "energy_delivered": "EV.energy_delivered"}),
-    ]),
-}
+GROUPS = {}
+EXTRA_GENERATORS = []
+for _p in sorted(glob.glob(os.path.join(os.path.dirname(os.path.abspath(__file__)), "anchors.d", "*.py"))):
+    _spec = importlib.util.spec_from_file_location("anchors_d_" + os.path.basename(_p)[:-3], _p)
+    _m = importlib.util.module_from_spec(_spec)
+    _spec.loader.exec_module(_m)
+    for _k, _v in getattr(_m, "GROUPS", {}).items():
+        if _k in GROUPS:
+            raise RuntimeError("duplicate anchor group %s" % _k)
+        GROUPS[_k] = _v
+    EXTRA_GENERATORS += getattr(_m, "EXTRA_GENERATORS", [])
